@@ -47,6 +47,12 @@ def richHardDraw (maxW maxH : UInt16) (cells : List Cell) : Drawn :=
   | .hang => .hang
   | .ok ls => ofExcept (Layout.drawText Surface.srcArith (Layout.richMode true) (ctxOf maxW maxH) (ls.map (·.map toWin)))
 
+/-- `Text.Draw` with `Softwrap = false`: the lines of `text.hardLines`, every cell in `Text.Style`,
+`Fill`, the ellipsis branch in the widget's style (a tab is 8 spaces: `expand`). -/
+def textHardDraw (expand : Cell → List Cell) (style : Nat) (maxW maxH : UInt16) (cells : List Cell) : Drawn :=
+  ofExcept (Layout.drawText Surface.srcArith (Layout.textMode true style) (ctxOf maxW maxH)
+    ((Wrap.textHardLines cells).map fun l => (l.flatMap expand).map (toWinSt style)))
+
 /-- `Text.Draw` with `Softwrap = true`: `ctx.Characters(scanner.Text())` re-clusters each line —
 under A-concat the same cells, except that a tab becomes 8 spaces (`expand`, supplied per case). -/
 def textDraw {σ : Type} (seg : σ → List Cell → Nat × Bool × σ) (st0 : σ) (expand : Cell → List Cell)
